@@ -163,6 +163,9 @@ func main() {
 		for _, v := range res.Violations {
 			if len(v.Sig) > 5 && v.Sig[:5] == "hang:" {
 				hangs++
+				if len(v.Sig) > 18 && v.Sig[:18] == "hang:real-deadlock" {
+					hangs = 5 // an abandoned goroutine stays behind: this process is done
+				}
 				break
 			}
 		}
